@@ -10,10 +10,11 @@
     memory-reference and immediate arguments) — at token level (the lexer is C05-C07's).
     Block definitions ([item], [C02_item_roundtrip] ff.): DEFCAL, DEFCAL MEASURE, DEFCIRCUIT with
     non-empty bodies of fragment instructions (indentation tokens), DEFFRAME (string / expression
-    attributes), DEFWAVEFORM.  Excluded by named decidable classes (open findings):
-    [rawcapture_region_i], [call_immediate_then_i]; by the type of bodies:
-    [nested-block-definition]; by [nonempty]: [empty-definition-body].  DEFGATE and the program
-    container are covered by the round-trip oracle on the real implementation only. *)
+    attributes), DEFWAVEFORM, DEFGATE AS MATRIX / PERMUTATION / PAULI-SUM / SEQUENCE.  Excluded by
+    named decidable classes (open findings): [rawcapture_region_i], [call_immediate_then_i]; by
+    the type of bodies: [nested-block-definition]; by [nonempty]: [empty-definition-body].  The
+    program container (definition order, deduplication) is covered by the harness: the model
+    starts from [Program::to_instructions]. *)
 From Coq Require Import List NArith ZArith Bool.
 From QV Require Import Model.ParsePanic Model.PrintParse Proofs.PrintParseProofs.
 Import ListNotations.
@@ -54,7 +55,8 @@ Proof. intros l H l' H'. rewrite (program_rt l H) in H'. now injection H' as <-.
 
 (** Block definitions: every well-formed item (a fragment instruction, or a DEFCAL / DEFCAL
     MEASURE / DEFCIRCUIT with a non-empty body of fragment instructions, a DEFFRAME with a
-    non-empty duplicate-free attribute list, a DEFWAVEFORM with at least one entry), printed and
+    non-empty duplicate-free attribute list, a DEFWAVEFORM with at least one entry, a DEFGATE with
+    at least one matrix row / permutation entry / Pauli term / sequence gate), printed and
     followed by the end of input or an unindented line, parses back to exactly that item. *)
 Theorem C02_item_roundtrip :
   forall (it : item) (rest : list tok), wf_item it = true -> block_end rest ->
@@ -79,7 +81,9 @@ Theorem C02_empty_definition_body_refuted :
   p_items Repaired (print_item (DefCal [] (IdName 0) [] [QFixed 0] [])) = Err /\
   p_items Repaired (print_item (DefCircuit (IdName 0) [] [] [])) = Err /\
   p_items Repaired (print_item (DefFrame ([QFixed 0], 0%N) [])) = Err /\
-  p_items Repaired (print_item (DefWaveform (IdName 0) None [] [])) = Err.
+  p_items Repaired (print_item (DefWaveform (IdName 0) None [] [])) = Err /\
+  p_items Repaired (print_item (DefGate (IdName 0) [] (GMatrix []))) = Err /\
+  p_items Repaired (print_item (DefGate (IdName 0) [] (GPermutation []))) = Err.
 Proof. vm_compute. repeat split. Qed.
 
 (** Open finding [rawcapture-region-i]: the class excluded by [wf_instr] is not vacuous — inside
@@ -153,7 +157,8 @@ Example C02_nonvacuous_quilt :
 Proof. vm_compute. repeat split. Qed.
 
 (** Non-vacuity for block definitions: a DEFCAL with a modifier, a parameter and a Quil-T body, a
-    DEFCAL MEASURE, a DEFCIRCUIT, a DEFFRAME and a DEFWAVEFORM in one program. *)
+    DEFCAL MEASURE, a DEFCIRCUIT, a DEFFRAME, a DEFWAVEFORM and the four DEFGATE forms in one
+    program. *)
 Example C02_nonvacuous_items :
   let w := {| wname := IdName 0; wext := None; wparams := [(IdName 2, EVar (IdName 1))] |} in
   let c := DefCal [MDagger] (IdName 3) [EVar (IdName 1)] [QFixed 0]
@@ -166,7 +171,17 @@ Example C02_nonvacuous_items :
              [(IdName 9, AVString 3%N); (IdName 10, AVExpr (EInfix (ENum false (VLex 0)) OPlus (ENum false (VInt 2))))] in
   let v := DefWaveform (IdName 0) (Some (IdName 11)) [IdName 1]
              [ENum false (VInt 1); ENum true (VInt 2); EInfix (EVar (IdName 1)) OStar (ENum false (VInt 2))] in
-  let l := [c; Plain IHalt; m; d; f; v; Plain (IReset None)] in
+  let g1 := DefGate (IdName 12) [IdName 1]
+              (GMatrix [[ENum false (VInt 1); ENum false (VInt 0)];
+                        [ENum false (VInt 0); EFn RCos (EVar (IdName 1))]]) in
+  let g2 := DefGate (IdName 12) [] (GPermutation [0%N; 1%N; 3%N; 2%N]) in
+  let g3 := DefGate (IdName 12) [IdName 1] (GPauliSum [IdName 5; IdName 8]
+              [(IdName 13, EInfix (EVar (IdName 1)) OSlash (ENum false (VInt 2)), [IdName 5; IdName 8]);
+               (IdName 14, ENum false (VInt 1), [IdName 8])]) in
+  let g4 := DefGate (IdName 12) [IdName 1] (GSequence [IdName 5; IdName 8]
+              [IGate [] (IdName 15) [] [QVar (IdName 5)];
+               IGate [MDagger] (IdName 3) [EVar (IdName 1)] [QVar (IdName 8)]]) in
+  let l := [c; Plain IHalt; m; d; f; v; g1; g2; g3; g4; Plain (IReset None)] in
   forallb wf_item l = true /\
   print_item m = [TCmd CDefCal; TCmd CMeasure; TBang; TId (IdName 4); TId (IdName 5); TId (IdName 6); TColon;
                   TNewLine; TIndent; TCmd CCapture; TId (IdName 5); TString 1; TId (IdName 0); TLParen;
